@@ -89,7 +89,7 @@ def _create_sparse_precision(
             edge_data = X[:, v1_from:v1_to] - X[:, v2_from:v2_to]
 
         # compute covariance matrix
-        covmat = np.cov(edge_data, rowvar=0, bias=bias)
+        covmat = np.atleast_2d(np.cov(edge_data, rowvar=0, bias=bias))
         if return_covariances:
             all_covariances[e] = covmat
 
@@ -238,7 +238,7 @@ def _create_dense_precision(
             edge_data = X[:, v1_from:v1_to] - X[:, v2_from:v2_to]
 
         # compute covariance matrix
-        covmat = np.cov(edge_data, rowvar=0, bias=bias)
+        covmat = np.atleast_2d(np.cov(edge_data, rowvar=0, bias=bias))
         if return_covariances:
             all_covariances[e] = covmat
 
@@ -321,7 +321,7 @@ def _create_sparse_diagonal_precision(
         i_to = (v + 1) * n_features_per_vertex
 
         # compute covariance
-        covmat = np.cov(X[:, i_from:i_to], rowvar=0, bias=bias)
+        covmat = np.atleast_2d(np.cov(X[:, i_from:i_to], rowvar=0, bias=bias))
         if return_covariances:
             all_covariances[v] = covmat
 
@@ -406,7 +406,7 @@ def _create_dense_diagonal_precision(
         i_to = (v + 1) * n_features_per_vertex
 
         # compute covariance
-        covmat = np.cov(X[:, i_from:i_to], rowvar=0, bias=bias)
+        covmat = np.atleast_2d(np.cov(X[:, i_from:i_to], rowvar=0, bias=bias))
         if return_covariances:
             all_covariances[v] = covmat
 
